@@ -106,7 +106,7 @@ fn serde_bytes_like(d: &[u8]) -> Vec<u8> {
 }
 
 pub fn run(cx: &mut Ctx) {
-    let maxlen = cx.tier.pick(24usize, 130, 600);
+    let maxlen = cx.tier.pick(24usize, 130, 2500);
     let mut idx = 0u64;
     #[cfg(feature = "nightly")]
     let only_ni = cx.opt("nightly_forms_only").is_some();
